@@ -64,8 +64,43 @@ class P:
                     ops.append(str(rng.choice([2 ** 31, 2 ** 32 + 1, 2 ** 59, 65535, 65536])))
         return "reader x%s %s" % (buf.hex(), " ".join(ops))
 
+    def long_case(self, rng):
+        """buffers longer than a UDP datagram (the reader is a library type: 'every buffer'): positions and counts beyond
+        2^16, reads that cross the 65535 / 65536 marks, a few large reads and many small ones around the marks"""
+        n = rng.choice([65535, 65536, 65537, 65544, 70000, 131071, 131073, 200000])
+        buf = bytes((i * 131 + (i >> 8) * 7 + (i >> 16) * 29) & 0xff for i in range(n))
+        ops, pos = [], 0
+        for _ in range(rng.randint(6, 18)):
+            k = rng.random()
+            rem = n - pos
+            if k < 0.35 and rem > 0:
+                # land just before / on / after a 2^16 multiple
+                mark = rng.choice([65535, 65536, 131072])
+                tgt = mark + rng.choice([-9, -8, -4, -2, -1, 0, 1, 7])
+                step = tgt - pos
+                if 0 < step <= rem:
+                    ops += [rng.choice(["r", "r", "p"]), str(step)]
+                    if ops[-2] == "r":
+                        pos += step
+                    continue
+            if k < 0.6:
+                o = rng.choice(["u8", "u16", "u32", "u64", "pu16"])
+                ops.append(o)
+                w = {"u8": 1, "u16": 2, "u32": 4, "u64": 8, "pu16": 0}[o]
+                if rem >= w:
+                    pos += w
+            elif k < 0.8:
+                ops.append(rng.choice(["len", "cnt"]))
+            else:
+                step = rng.choice([rem, rem + 1, rng.randint(0, max(0, rem)), 40000, 25600, 65536, 65535])
+                ops += ["r", str(step)]
+                if 0 <= step <= rem:
+                    pos += step
+        ops += ["cnt", "len"]
+        return "reader x%s %s" % (buf.hex(), " ".join(ops))
+
     def cases(self, tier, rng, budget):
-        out = []
+        out = [self.long_case(rng) for _ in range(10 if tier == "quick" else 150)]
         if tier == "thorough":
             # exhaustive: all buffers of length <= 3 over a 3-symbol alphabet x all op sequences of
             # length <= 3 with arguments in -1..4 (finite, complete)
